@@ -122,30 +122,9 @@ Definition arcs_into (g : egraph) (preds S : list name) : nat :=
                           | Some b => (acc + length (zsort (filter (fun t => zmem t S) (e_jt b))))%nat
                           | None => acc end) preds O.
 
-Definition loop_helper (g : egraph) (loop headers entries exiting exits : list name)
-           (doms : list (name * list name)) (blocknames : list name) (varnames : list Z) : res egraph :=
-  let unified := match headers with _ :: _ :: _ => true | _ => false end in
-  (* step 1: a single loop head *)
-  let step1 : res (egraph * name * list name * list name * list Z) :=
-    if unified then
-      match blocknames, varnames with
-      | h :: bn, v :: vn =>
-        let k := arcs_into g entries headers in
-        match insert_cb g h v entries headers (firstn k bn) C_HEAD with
-        | Ok g1 => Ok (g1, h, loop ++ [h], skipn k bn, vn)
-        | KeyError => KeyError
-        | AssertionError => AssertionError
-        end
-      | _, _ => AssertionError
-      end
-    else match headers with
-         | [h] => Ok (g, h, loop, blocknames, varnames)
-         | _ => AssertionError
-         end in
-  match step1 with
-  | KeyError => KeyError
-  | AssertionError => AssertionError
-  | Ok (g1, hd, loop1, bn, vn) =>
+(* everything after the single loop head has been established (step 1) *)
+Definition loop_rest (g1 : egraph) (hd : name) (loop1 headers exiting exits : list name) (unified : bool)
+           (doms : list (name * list name)) (bn : list name) (vn : list Z) : res egraph :=
     let sloop := zsort loop1 in
     let backedge_blocks := filter (fun x => match efind g1 x with
                                             | Some b => existsb (fun t => zmem t headers) (ejts b)
@@ -190,7 +169,32 @@ Definition loop_helper (g : egraph) (loop headers entries exiting exits : list n
             loop_rotate g1 hd headers exits todo unified header_tbl isback latch sexit ev bv bn2
           end
         end
+      end.
+
+Definition loop_helper (g : egraph) (loop headers entries exiting exits : list name)
+           (doms : list (name * list name)) (blocknames : list name) (varnames : list Z) : res egraph :=
+  let unified := match headers with _ :: _ :: _ => true | _ => false end in
+  (* step 1: a single loop head *)
+  let step1 : res (egraph * name * list name * list name * list Z) :=
+    if unified then
+      match blocknames, varnames with
+      | h :: bn, v :: vn =>
+        let k := arcs_into g entries headers in
+        match insert_cb g h v entries headers (firstn k bn) C_HEAD with
+        | Ok g1 => Ok (g1, h, loop ++ [h], skipn k bn, vn)
+        | KeyError => KeyError
+        | AssertionError => AssertionError
+        end
+      | _, _ => AssertionError
       end
+    else match headers with
+         | [h] => Ok (g, h, loop, blocknames, varnames)
+         | _ => AssertionError
+         end in
+  match step1 with
+  | KeyError => KeyError
+  | AssertionError => AssertionError
+  | Ok (g1, hd, loop1, bn, vn) => loop_rest g1 hd loop1 headers exiting exits unified doms bn vn
   end.
 
 (* ---------- correspondence driver ----------
